@@ -1,5 +1,6 @@
 //! Shared pieces of the simulators: the one PRNG, run outcome / harness trait,
 //! batch runner, shrinker, replay files, evidence writer, known findings.
+pub mod abortguard;
 pub mod cli;
 pub mod common;
 pub mod rng;
